@@ -153,12 +153,17 @@ class SameMembers(Matcher):
 
     def __init__(self, expected):
         super().__init__()
+        if iter(expected) is expected:
+            # An iterator can be walked only once; match() walks it twice.
+            expected = list(expected)
         self.expected = expected
 
     def __str__(self):
         return f"{self.__class__.__name__}({self.expected!r})"
 
     def match(self, observed):
+        if iter(observed) is observed:
+            observed = list(observed)
         expected_only = list_subtract(self.expected, observed)
         observed_only = list_subtract(observed, self.expected)
         if expected_only == observed_only == []:
